@@ -56,7 +56,10 @@ type c04Step struct {
 }
 
 type c04Case struct {
-	Buf   int       `json:"buf"` // EventBuffer = QueryBuffer
+	Buf   int       `json:"buf"` // EventBuffer (and QueryBuffer unless QBuf is set)
+	// QBuf, when non-zero, is a QueryBuffer size of its own: the two are
+	// independent settings, and each kind's window is its own buffer's size
+	QBuf int `json:"qbuf,omitempty"`
 	Msgs  []c04Msg  `json:"msgs"`
 	Steps []c04Step `json:"steps"`
 }
@@ -65,6 +68,9 @@ var c04Member = []string{"n0", "m1", "m2", "m3", "ghost"}
 
 func genC04(t *rapid.T) c04Case {
 	c := c04Case{Buf: rapid.SampledFrom([]int{1, 2, 4, 4, 16, 512}).Draw(t, "buf")}
+	if rapid.IntRange(0, 2).Draw(t, "own-qbuf") == 0 {
+		c.QBuf = rapid.SampledFrom([]int{1, 2, 2, 4, 16, 512}).Draw(t, "qbuf")
+	}
 	np := rapid.IntRange(3, 10).Draw(t, "pool")
 	ltGen := rapid.OneOf(rapid.Uint64Range(0, 6), rapid.Uint64Range(0, 6), rapid.Uint64Range(0, 6), rapid.SampledFrom([]uint64{40, 1 << 40, maxLT - 5}))
 	for i := 0; i < np; i++ {
@@ -173,6 +179,7 @@ func c04Encode(m c04Msg) []byte {
 var c04KindName = []string{"join-intent", "leave-intent", "user-event", "query"}
 
 func bodyC04(c c04Case, x *vkit.Ctx) {
+	volleyReset(len(c.Steps))
 	if c.Buf < 1 || len(c.Msgs) == 0 {
 		x.Inconclusive("bad case")
 		return
@@ -180,6 +187,9 @@ func bodyC04(c c04Case, x *vkit.Ctx) {
 	nw := simnet.New(1)
 	n, err := node.New(nw, node.Opts{Name: c04Member[0], Quiet: true, Mutate: func(cf *serf.Config) {
 		cf.EventBuffer, cf.QueryBuffer = c.Buf, c.Buf
+		if c.QBuf > 0 {
+			cf.QueryBuffer = c.QBuf
+		}
 	}})
 	if err != nil {
 		x.Inconclusive("node setup: " + err.Error())
@@ -248,14 +258,23 @@ func bodyC04(c c04Case, x *vkit.Ctx) {
 	for si, st := range c.Steps {
 		// retention of events/queries: once the clock has moved a full buffer
 		// past a message it is outside the window the statement speaks of
+		// ... and a message that is outside of it is not passed on at all (a member
+		// that re-broadcast what it no longer remembers, every time it hears it,
+		// is exactly how a finite set of messages gets gossiped forever). The
+		// clocks only move forward, so outside before the step is outside in it.
 		_, ec, qc := n.Serf.VerifClocks()
+		outside := map[string]bool{}
 		for b, lt := range lamport {
-			clk := uint64(ec)
+			clk, size := uint64(ec), uint64(c.Buf)
 			if kindOf[b] == 3 {
 				clk = uint64(qc)
+				if c.QBuf > 0 {
+					size = uint64(c.QBuf)
+				}
 			}
-			if clk > uint64(c.Buf) && lt < clk-uint64(c.Buf) {
+			if clk > size && lt < clk-size {
 				rebro[b] = 0
+				outside[b] = true
 			}
 		}
 		injected, what := "", ""
@@ -416,6 +435,11 @@ func bodyC04(c c04Case, x *vkit.Ctx) {
 				// member, and for the forgotten member the next copy starts a new
 				// retention (see the assumptions) and is re-broadcast once more.
 				erasedInStep[e] = true
+			case outside[e]:
+				x.Violationf(c04KindName[kindOf[e]]+"-rebroadcast-outside-window",
+					"step %d (%s): a message older than the retention window (time %d; clocks event %d query %d, buffers %d/%d) was queued for re-broadcast",
+					si, what, lamport[e], ec, qc, c.Buf, map[bool]int{true: c.QBuf, false: c.Buf}[c.QBuf > 0])
+				return
 			case added > 1 || rebro[e] > 0:
 				x.Violationf(c04KindName[kindOf[e]]+"-rebroadcast-again",
 					"step %d (%s): the same message was queued for re-broadcast again (%d time(s) before, %d now; %d copies in the queues) while still retained",
@@ -448,6 +472,9 @@ func bodyC04(c c04Case, x *vkit.Ctx) {
 		prevMembers = ms
 	}
 	x.Labelf("buf=%d", c.Buf)
+	if c.QBuf > 0 && c.QBuf != c.Buf {
+		x.Label("query-buffer-of-its-own")
+	}
 	x.Labelf("redelivered=%s", bucket(redelivered, 0, 2, 5, 10))
 	if redeliveredAfterRebro > 0 {
 		x.Label("redelivered-after-rebroadcast")
